@@ -202,7 +202,8 @@ def ensure_e1(config="std", tier="quick"):
                 events.append((r["root"],) + tuple(e))
         data = {
             "sites": sites,
-            "inv": {sp: {"top": bool(v.get("top")), "disjuncts": [[l.key() for l in d] for d in v["disjuncts"]]}
+            "inv": {sp: {"top": bool(v.get("top")), "disjuncts": [[l.key() for l in d] for d in v["disjuncts"]],
+                         "atoms": v.get("atoms", {})}
                     for sp, v in res["inv"].items()},
             "events": events,
             "roots": res["roots"],
